@@ -122,6 +122,9 @@ Inductive event (U : Type) := EvValidate (u : U) | EvSend (first : bool) (u : U)
 Arguments EvValidate {U} u.
 Arguments EvSend {U} first u.
 
+(* what a caller-supplied CheckRedirect says about a hop *)
+Inductive pverdict := POk | PRefuse | PUseLast.
+
 (* ---- the fetch machine ----------------------------------------------------- *)
 Section Machine.
   Variable U : Type.
@@ -129,6 +132,20 @@ Section Machine.
   Variable origin : nat -> U -> answer U.       (* attempt number -> URL -> answer *)
   Variable maxR : nat.                          (* maxRedirects() *)
   Variable rb : body -> result.                 (* what is made of a 200 body: [read_body maxF maxD] *)
+  (* the CheckRedirect the caller's own HTTPClient carries (None: it has none), asked
+     AFTER the hop limit and the validator; its argument is the redirect budget left
+     when it is asked (= maxRedirects + 1 - len(via)) *)
+  Variable prev : option (nat -> pverdict).
+
+  Definition policy_says (left : nat) : option eclass :=
+    match prev with
+    | None => None
+    | Some p => match p left with
+                | POk => None
+                | PRefuse => Some EGet            (* an ordinary error: client.Do fails *)
+                | PUseLast => Some (EStatus 0)    (* http.ErrUseLastResponse: the 3xx answer itself comes back *)
+                end
+    end.
 
   Definition accepts (u : U) : bool := match validator with Some f => f u | None => true end.
   Definition val_event (u : U) : list (event U) :=
@@ -148,7 +165,10 @@ Section Machine.
         match left with
         | O => ([EvSend first u], RErr ERedirectLimit)
         | S l => if accepts v
-                 then let '(t, r) := follow att l false v in (EvSend first u :: val_event v ++ t, r)
+                 then match policy_says (S l) with
+                      | None => let '(t, r) := follow att l false v in (EvSend first u :: val_event v ++ t, r)
+                      | Some e => (EvSend first u :: val_event v, RErr e)
+                      end
                  else (EvSend first u :: val_event v, RErr ETargetRejected)
         end
     end.
@@ -219,9 +239,24 @@ Definition redact (v : pub) : bytes := if v_valid v then go_string v else c31_in
 (* ---- inputs ------------------------------------------------------------------ *)
 Inductive verdict := VAccept | VReject (echo : bool).   (* echo: the validator's message quotes the URL *)
 Inductive vkind := VNone | VScript | VHttps.            (* no validator / scripted / HTTPSOnlyValidator *)
+(* cfg.HTTPClient's own CheckRedirect: none (nil HTTPClient, or a client without one);
+   always nil; an error / ErrUseLastResponse once len(via) >= k, nil before *)
+Inductive cpolicy := CPNone | CPAllow | CPRefuseFrom (k : nat) | CPUseLastFrom (k : nat).
+Definition cpolicy_at (c : cpolicy) (nvia : nat) : pverdict :=
+  match c with
+  | CPNone | CPAllow => POk
+  | CPRefuseFrom k => if (k <=? nvia)%nat then PRefuse else POk
+  | CPUseLastFrom k => if (k <=? nvia)%nat then PUseLast else POk
+  end.
+Definition cpolicy_fn (c : cpolicy) (maxR : nat) : option (nat -> pverdict) :=
+  match c with
+  | CPNone => None
+  | _ => Some (fun left => cpolicy_at c (S maxR - left))
+  end.
 Record site_url := { s_parts : parts; s_verdict : verdict; s_answers : list (answer nat) }.
 Record fetch_in := {
   f_vkind : vkind;
+  f_policy : cpolicy;
   f_retries : Z; f_redirects : Z; f_maxfetch : Z; f_maxdecomp : Z;
   f_site : list site_url;          (* URL number k is the k-th entry; the location URL is number 0.
                                       Entries are distinct FULL URLs: two of them may share every public
@@ -236,12 +271,12 @@ Inductive input := IFetch (f : fetch_in) | IRedact (p : parts) | ISimple (q : si
 
 (* the public view: what the model is allowed to look at *)
 Record pub_url := { w_pub : pub; w_verdict : verdict; w_answers : list (answer nat) }.
-Record pub_in := { g_vkind : vkind; g_retries : Z; g_redirects : Z; g_maxfetch : Z; g_maxdecomp : Z;
+Record pub_in := { g_vkind : vkind; g_policy : cpolicy; g_retries : Z; g_redirects : Z; g_maxfetch : Z; g_maxdecomp : Z;
                    g_site : list pub_url }.
 Definition view_url (s : site_url) : pub_url :=
   {| w_pub := pub_of (s_parts s); w_verdict := s_verdict s; w_answers := s_answers s |}.
 Definition view (f : fetch_in) : pub_in :=
-  {| g_vkind := f_vkind f; g_retries := f_retries f; g_redirects := f_redirects f;
+  {| g_vkind := f_vkind f; g_policy := f_policy f; g_retries := f_retries f; g_redirects := f_redirects f;
      g_maxfetch := f_maxfetch f; g_maxdecomp := f_maxdecomp f; g_site := map view_url (f_site f) |}.
 
 Definition https_bytes : bytes := [104; 116; 116; 112; 115].
@@ -314,7 +349,7 @@ Definition run_with (reader : N -> N -> body -> result) (g : pub_in) : fetch_obs
   let maxF := Z.to_N (max_fetch (g_maxfetch g)) in
   let maxD := Z.to_N (max_decomp (g_maxdecomp g)) in
   let '(t, r, _) := resolve nat (site_validator (g_vkind g) (g_site g)) (site_origin (g_site g))
-                            maxR (reader maxF maxD) (eff_attempts (g_retries g)) O in
+                            maxR (reader maxF maxD) (cpolicy_fn (g_policy g) maxR) (eff_attempts (g_retries g)) O in
   let m := match r with ROk _ => false | RErr e => mentions (g_vkind g) (g_site g) e end in
   let txt := if m then red0 (g_site g) else [] in
   {| o_clamps := (max_retries (g_retries g), max_redirects (g_redirects g),
